@@ -45,6 +45,8 @@ class Ctx:
         """Facts for a configuration. A configuration that no longer type-checks is a
         violation for rules that exist only there (required=True) and is skipped otherwise."""
         if self.force_cfg:
+            if cfg == "A" and self.force_cfg != "A" and not required:
+                return None         # async-only rules do not exist in a configuration without async-io
             cfg = self.force_cfg
         if cfg in self.configs and self.configs[cfg] is not None:
             return self.configs[cfg]
